@@ -8,7 +8,14 @@ ID="$1"; TIER="${2:-${VERIF_TIER:-quick}}"; shift; shift || true
 mkdir -p /verif/bin /verif/evidence /verif/replays
 BIN=/verif/bin/mc.$$
 ( cd /verif/mc && cp -f /repo/go.sum go.sum 2>/dev/null; go build -o "$BIN" . ) || { echo "BUILD FAILED (harness or /repo does not compile)"; exit 2; }
+RACE=""
+if [ "$ID" = "C04" ]; then
+  # free-running concurrency pass under the race detector (supplement to the exhaustive interleaving search)
+  RACE=/verif/bin/race.$$
+  ( cd /verif/race && cp -f /repo/go.sum go.sum 2>/dev/null; go build -race -o "$RACE" . ) || { echo "BUILD FAILED (race harness)"; rm -f "$BIN"; exit 2; }
+  export VERIF_RACE_BIN="$RACE"
+fi
 "$BIN" check "$ID" --tier "$TIER" "$@"
 rc=$?
-rm -f "$BIN"
+rm -f "$BIN" $RACE
 exit $rc
